@@ -35,6 +35,8 @@ impl Type {
         match self {
             Self::Bits(_) => Some(Self::Bit),
             Self::List(elm_typ) => Some(*elm_typ.clone()),
+            // the elements of a value whose type could not be inferred have an unknown type
+            Self::Unknown => Some(Self::Unknown),
             _ => None,
         }
     }
@@ -74,15 +76,15 @@ impl Type {
     }
 
     pub fn is_bits(&self) -> bool {
-        matches!(self, Self::Bits(_) | Self::Uninitialized)
+        matches!(self, Self::Bits(_) | Self::Uninitialized | Self::Unknown)
     }
 
     pub fn is_list(&self) -> bool {
-        matches!(self, Self::List(_) | Self::Uninitialized)
+        matches!(self, Self::List(_) | Self::Uninitialized | Self::Unknown)
     }
 
     pub fn is_record(&self) -> bool {
-        matches!(self, Self::Record(_, _) | Self::Uninitialized)
+        matches!(self, Self::Record(_, _) | Self::Uninitialized | Self::Unknown)
     }
 }
 
